@@ -6,6 +6,46 @@ import os
 HERE = os.path.dirname(os.path.dirname(os.path.abspath(__file__)))
 
 # id -> (category, technique, engine, text, note)
+# one long axis at a time (added after the scale-dependent seeded changes)
+EXTRA = {
+    "C01": " Plus lists of 8-40 (thorough -66) tie-rich events: every prefix "
+           "of 5-8 insertion orders, every cancellation position and pair of "
+           "positions, all n! insertion orders up to n=8 (9). The canonical "
+           "state includes every attribute of the list object.",
+    "C02": " Plus decimal (non-dyadic) absolute and relative requests from a "
+           "handler for every pair of a time grid, and bursts / ladders of up "
+           "to 40 (65) events under four drivers.",
+    "C03": " Plus bursts and ladders of up to 40 (65) events with a pause at "
+           "every position and single steps up to every position.",
+    "C04": " Plus start / pause / resume on replications with up to 40 (65) "
+           "simultaneous or chained events.",
+    "C05": " Plus handlers raising a non-Exception BaseException, and up to "
+           "40 (65) events of which all / every second / every third fail.",
+    "C06": " Plus the same replication object again, hand-scheduled events "
+           "after initialize, a long-lived stream re-seeded over 20 "
+           "replications and a side-effecting simulator listener built by "
+           "the model.",
+    "C07": " The model contains a burst of thirty simultaneous events; the "
+           "run is stopped at every handler index 1..55.",
+    "C08": " Plus 1-40 (65) subscribers on one type with every removal form "
+           "and position, and object / NoneType payload declarations.",
+    "C09": " Long series are compared after every observation up to 70.",
+    "C10": " Plus six long weighted series and closed interval series "
+           "compared after every observation up to 70.",
+    "C11": " The model subscribes a one-shot listener to the simulator "
+           "before its statistics.",
+    "C12": " Plus deep / pickled copies at every position and 48 further "
+           "seeds on fresh and long-lived stream objects.",
+    "C13": " Plus one updater and one stream set through 48 replications in "
+           "four orders, and a stream known under another name later.",
+    "C15": " Plus the pmf for parameters at the closed end of their range.",
+    "C16": " Plus refused operations with zero-valued operands and power "
+           "chains to the 14th power.",
+    "C17": " Plus text rendering of very large / very small display values.",
+    "C18": " Plus trees of up to 4 (5) nested maps assembled in every order "
+           "with populated sub-trees moved.",
+}
+
 CHECKS = {
     "C01": ("model_checking",
             "explicit-state BFS over heap layouts of the real EventListHeap to "
@@ -17,7 +57,7 @@ CHECKS = {
             "and the full drain order compared to a sorted-list reference after "
             "each transition; plus all raw op sequences to depth 5-6 without "
             "dedup, and the comparison operators over all pairs/triples.",
-            "Pools of <=9 events; adding one object twice unexplored; "
+            "BFS pools of <=9 events, fixed event sets beyond; adding one object twice unexplored; "
             "reference = Python sort by (time,-priority,id)."),
     "C02": ("exploration",
             "bounded-exhaustive enumeration of model programs executed on the "
@@ -302,6 +342,7 @@ def main():
         if pid not in CHECKS:
             continue
         cat, tech, eng, text, note = CHECKS[pid]
+        text += EXTRA.get(pid, "")
         checks.append({
             "property_id": pid,
             "quick_cmd": "./check %s --tier quick" % pid,
